@@ -112,3 +112,24 @@ for _n, _w, _tiers in ((3, 0, ('quick', 'thorough')), (3, 1, ('quick', 'thorough
       assumptions=['comparison-only ranking: exact for finite doubles; the frequency is compared in the real-arithmetic reading', 'defined values pairwise distinct', 'weights > 0'],
       stubs=['law_invcdf_gaussian(p) -> p (identity: strictly increasing; outputs are the frequencies)',
              'throw_exp -> throws an int; operator new(size_t, nothrow) -> nullptr (std::stable_sort runs its buffer-less path, as in C11.e); messerr -> empty'])
+
+
+# ---- C18.g (builder3): a PCA recomputed on the same object gives what a fresh object gives (accumulators reset)
+_PCARTUS = ['src/Stats/PCA.cpp', 'src/Matrix/MatrixSquareSymmetric.cpp', 'src/Matrix/MatrixSquareGeneral.cpp', 'src/Matrix/AMatrixSquare.cpp', 'src/Matrix/MatrixRectangular.cpp',
+            'src/Matrix/AMatrixDense.cpp', 'src/Matrix/AMatrix.cpp', 'src/Basic/VectorHelper.cpp', 'src/Basic/AStringable.cpp', 'src/Basic/Utilities.cpp']
+for _ne, _tiers in ((3, ('quick', 'thorough')), (4, ('thorough',))):
+    K('C18.g.%d' % _ne, property='C18', engine='symex', harness='C18/pcarecompute.cpp', entries=['k_recompute_all_all', 'k_recompute_all_less', 'k_recompute_less_all', 'k_recompute_less_less'], tus=_PCARTUS,
+      defines={'all': {'VF_NVAR': 2, 'VF_NECH': _ne}}, tiers=_tiers,
+      bounds={'quick': 'nvar = 2; two successive computations on one PCA object, each on its own data set of %d samples with arbitrary real values (a continuum); four fixed patterns of left-out samples '
+                       '(none / none, none / sample 0 masked, sample 1 not isotopic / none, sample 0 masked / sample 2 masked)' % _ne},
+      timeout_ms={'quick': 120000, 'thorough': 600000}, validate={'quick': 40, 'thorough': 80}, validate_doubles='int',
+      what='PCA::PCA, PCA::pca_compute twice on the same object (init / resize, _getVectorIsotopic, _calculateNormalization, _covariance0, _loadData, _center, MatrixSquareSymmetric storage: fill, '
+           'setValue, getValue): in both runs the matrix handed to the eigen step is the (n-1)-normalised covariance matrix of that run\'s isotopic samples (both triangles), the means and the '
+           'standard deviations are those of that run\'s samples: nothing accumulated by the first run survives in the second',
+      out='the eigen decomposition and the transfer functions built from it (C18.d takes them as given); maf_compute (same _covariance0, then a second accumulation over pairs); '
+          'a change of the number of variables between the runs (resize then clears); runs with fewer than 2 isotopic samples (division by n-1 = 0); rounding',
+      assumptions=['real-arithmetic reading (native validation / replay compares up to 1e-9 relative)', 'at least two active isotopic samples in each run (true of the four patterns)',
+                   'standard deviation checked through its square, within 1e-9 relative in every build'],
+      stubs=['MatrixSquareSymmetric::computeEigen(bool) -> records the matrix it is called on and returns 1 (failure), which makes pca_compute return before _pcaFunctions',
+             'Db::getLocNumber(const ELoc&) const -> 2; Db::getSampleNumber(bool) const -> number of samples; Db::isActive / Db::isIsotopic / Db::getZVariable -> symbolic tables of the current run; '
+             'out-of-range accesses counted and asserted absent; the Db itself is an untouched raw buffer', 'messerr / message / mestitle -> empty'])
